@@ -49,7 +49,7 @@ class C33(Check):
     rule = ("1..6 threads with random R/W cycle programs, lock pre-aged to arbitrary counter values (including the 2^24/2^32 "
             "wrap-arounds); schedules: sequential, round-robin, bursts, random, and directed prefixes (writer arriving while "
             "readers are inside, readers arriving while a writer waits, back-to-back writers, reader that misses the zero "
-            "window between two writers), plus all schedules of length 8 for two single-cycle threads; non-trivial = at least "
+            "window between two writers), lock ages placed so that the readers inside / the queued writers straddle the int32 sign bit (a = 2^23-k, b = 2^31-k) or the 2^32 wrap; plus all schedules of length 8 for two single-cycle threads on a fresh lock and on both boundaries; non-trivial = at least "
             "two non-empty programs, one of them with a write cycle; distinct = case text")
     trusted = ("cosched.h/interpose.h scheduling points and the nanosleep / fetch_and macro redefinitions in harness/h_rwlock.c",)
     assumptions = ("sequentially consistent atomics and volatile accesses (x86-64 __sync builtins are full barriers)",
@@ -64,8 +64,18 @@ class C33(Check):
 
     # ------------------------------------------------------------------ generation
     def _age(self, r):
-        a = r.pick([0, 0, r.below(1000), (1 << 24) - 1, (1 << 24) - 2, (1 << 24) - r.range(1, 6), r.below(1 << 24)])
-        b = r.pick([0, 0, r.below(1000), M32 - 1, M32 - 2, M32 - r.range(1, 6), (1 << 31) - r.range(0, 3), r.below(M32)])
+        # the words are int32_t stepped by 0x100 (rin/rout) or 1 (win/wout): aim at the SIGN boundary
+        # (256*a crosses 2^31 at a = 2^23, b at 2^31) and at the unsigned wrap (a = 2^24, b = 2^32)
+        a = r.pick([0, 0, r.below(1000), (1 << 24) - r.range(1, 6), (1 << 23) - r.range(1, 6), (1 << 23) + r.range(0, 3),
+                    (1 << 22) - r.range(0, 2), r.below(1 << 24)])
+        b = r.pick([0, 0, r.below(1000), M32 - r.range(1, 6), (1 << 31) - r.range(1, 6), (1 << 31) + r.range(0, 3),
+                    r.below(M32)])
+        return a, b
+
+    def _straddle(self, r, n):
+        """lock age such that the next n read entries (resp. write tickets) straddle a sign / wrap boundary"""
+        a = r.pick([1 << 23, 1 << 24]) - r.range(1, max(1, n))
+        b = r.pick([1 << 31, M32]) - r.range(1, 3)
         return a, b
 
     def _prog(self, r, maxlen, kind=None):
@@ -117,6 +127,8 @@ class C33(Check):
             for t in range(nr + 1, nr + 1 + nl):
                 s += [t, t] + [t] * r.below(3)
             s += [w] * r.below(3)
+            if r.chance(2, 3):      # the readers inside straddle the sign / wrap boundary of rin when the writer arrives
+                a, b = self._straddle(r, nr)
         elif kind == 1:
             # a writer inside, a second writer queued, readers arrive; then the first leaves
             nrd = r.range(1, 3)
@@ -127,6 +139,8 @@ class C33(Check):
                 s += [t, t]
             s += [0] * r.range(0, 4)
             s += [r.pick([0, 1] + list(range(2, 2 + nrd))) for _ in range(r.below(8))]
+            if r.chance(1, 2):
+                a, b = self._straddle(r, nrd)
         elif kind == 2:
             # back-to-back writers: every thread takes its ticket first
             nw = r.range(2, 6)
@@ -135,6 +149,8 @@ class C33(Check):
                 progs[r.below(nw)] = "R" + self._prog(r, maxlen - 1)
             order = r.shuffle(range(nw))
             s = order + order
+            if r.chance(1, 2):
+                a, b = self._straddle(r, 2)
         else:
             # reader blocked by writer A misses the window: A leaves and writer B sets its bits
             # (other phase) before the reader looks again
@@ -157,10 +173,14 @@ class C33(Check):
         maxlen = 4 if quick else 8
         out = []
         # all schedules of length 8 for two threads with one cycle each (the rest is completed round-robin)
-        for p0 in "RW":
-            for p1 in "RW":
-                for m in range(256):
-                    out.append(self._fmt(0, 0, [p0, p1], [(m >> i) & 1 for i in range(8)]))
+        # on a fresh lock, and on locks whose next entry crosses the int32 sign bit / the 2^32 wrap
+        for (a0, b0) in ((0, 0), ((1 << 23) - 1, (1 << 31) - 1), ((1 << 24) - 1, M32 - 1)):
+            for p0 in "RW":
+                for p1 in "RW":
+                    for m in range(256):
+                        if a0 and (p0, p1) == ("R", "R") and m % 8:
+                            continue
+                        out.append(self._fmt(a0, b0, [p0, p1], [(m >> i) & 1 for i in range(8)]))
         for _ in range(1500 if quick else 30000):
             out.append(self._directed(r, maxlen))
         for _ in range(1500 if quick else 30000):
